@@ -16,12 +16,16 @@ META = {
     "engine": "A (exhaustive program enumeration)",
     "rule": "a case = (program, form in {as built, unwrapped, grouped}); every metric is evaluated twice with the default constructor and "
             "once with the penalty x -> 2x+1; non-trivial = program has >= 2 operations of which one is two-qubit or a wrapper; distinct = distinct programs",
-    "bounds": {"quick": "all programs of <= 3 letters over the 17-letter alphabet on (2,2,1); solver circuits of all graphs n<=4",
-               "thorough": "<= 4 letters; solver circuits n<=5"},
-    "assumptions": ["alphabet excludes CZ, MeasurementZ, classical-controlled gates and emitter-target measure-and-reset, whose membership in 'unitary'/'measurement'/"
-                    "'reset' counts the docstrings do not settle", "depth counts classical-register dependencies of operations added in sequence"],
+    "bounds": {"quick": "all programs of <= 3 letters over the 17-letter alphabet on (2,2,1); all programs of <= 2 letters over 22 letters that contain CZ (emitter-emitter, emitter-photon), "
+                        "MeasurementZ or a classically controlled Z; solver circuits of all graphs n<=4",
+               "thorough": "<= 4 letters (<= 3 with the extra letters); solver circuits n<=5"},
+    "assumptions": ["for circuits with CZ / classically controlled gates the unitary count, and for circuits with plain MeasurementZ the measurement count, are not compared: "
+                    "the docstrings do not settle whether those operations are counted", "depth counts classical-register dependencies of operations added in sequence"],
 }
 LAYOUT = (2, 2, 1)
+
+
+EXTRA = [["CZ", "e", 0, "e", 1], ["CZ", "e", 1, "p", 0], ["MZ", "e", 1, 0], ["MZ", "p", 0, 0], ["CCZ", "e", 0, "p", 1, 0]]
 
 
 def alphabet():
@@ -81,6 +85,11 @@ def check_circuit(acc, circ, m, case):
     import graphiq.metrics as gm
     from .c12 import fingerprint
     want = definitions(m)
+    kinds_present = {l[0] for l in m.ops.values()}
+    if kinds_present & {"CZ", "CCZ", "CCNOT"}:
+        want.pop("CircuitUnitaryCount", None)   # whether CZ / classically controlled gates count as "unitary gates" is not stated
+    if "MZ" in kinds_present:
+        want.pop("CircuitMeasureCount", None)   # whether a plain measurement counts besides measure-and-reset is not stated
     fp = fingerprint(circ)
     acc.evaluations += 1
     for name in METRICS:
@@ -154,6 +163,10 @@ def shards(tier):
             out.append({"kind": "prog", "first": [i], "L": L})
     for i in range(len(al)):
         out.append({"kind": "edited", "first": i})
+    # letters outside the core alphabet (CZ on two emitters / emitter-photon, plain measurements, classically controlled Z): every program of
+    # <= 2 (3 thorough) letters that contains at least one of them
+    for i in range(len(EXTRA)):
+        out.append({"kind": "extra", "first": i, "L": 2 if tier == "quick" else 3})
     nmax = 4 if tier == "quick" else 5
     for n in range(2, nmax + 1):
         graphs = [g for g in spaces.all_graphs(n) if not spaces.has_isolated(n, g)]
@@ -226,6 +239,17 @@ def run_shard(shard, tier, acc):
             progs = [pre + list(t) for n in range(0 if len(pre) > 1 else 1, shard["L"] - len(pre) + 1) for t in itertools.product(al, repeat=n)]
             if len(pre) == 1 and shard["L"] == 2:
                 progs = [pre + [l] for l in al]
+        for p in progs:
+            check_program(acc, LAYOUT, p)
+        acc.sample({"layout": list(LAYOUT), "program": progs[-1]})
+    elif shard["kind"] == "extra":
+        full = al + EXTRA
+        progs = []
+        for n in range(1, shard["L"] + 1):
+            for t in itertools.product(full, repeat=n):
+                ex = [l for l in t if l in EXTRA]
+                if ex and ex[0] == EXTRA[shard["first"]]:
+                    progs.append(list(t))
         for p in progs:
             check_program(acc, LAYOUT, p)
         acc.sample({"layout": list(LAYOUT), "program": progs[-1]})
